@@ -570,6 +570,8 @@ enum Fail {
     ReplyLostWithChatter,
     /// (file operations) the reply arrives but is not an acceptance: see `spoil_file_reply`
     BadReply(u8),
+    /// the master task goes away (its runtime task is cancelled, as at runtime shutdown) with the request outstanding
+    MasterGone,
 }
 
 const BAD_REPLIES: u8 = 8;
@@ -783,6 +785,11 @@ async fn failure_scenario(
         }
         Fail::Disable => {
             let _ = sim.channel.disable().await;
+            settle().await;
+            bound = 1;
+        }
+        Fail::MasterGone => {
+            sim.join.abort();
             settle().await;
             bound = 1;
         }
@@ -1035,6 +1042,7 @@ pub fn run(a: &ShardArgs) -> Result<(), String> {
         Fail::Disable,
         Fail::RemoveAssociation,
         Fail::RemoveAssociationThenReply,
+        Fail::MasterGone,
     ];
     let mut b_cases: Vec<(UserReq, &str, usize, Fail)> = vec![];
     for (rq, kind) in &kinds {
